@@ -106,7 +106,7 @@ manifest = {
     ],
     "checks": checks,
     "not_applicable": na,
-    "notes": "All checks: exit 0 = held on everything explored, exit 1 + VIOLATION line = violation, exit 2 = infrastructure problem (never a verdict). Genuine defects found: seven repaired by fix: commits (fixed: lines of KNOWN_FINDINGS.txt), three recorded as known findings K1 (C17), K2 (C15), K3 (C20), each under its own failure signature with a fixed reproducer, so the check prints KNOWN-FINDING and still reports any other violation. Sensitivity: 48 hand-written mutants (mutants/*.patch) and 256 changes written by sub-agents that saw only a property text (seeded/*/patch.diff, nine rounds) all make the quick tier of their property exit 1, except seeded/C10-h (needs n >= 2.64e6: thorough tier) and seeded/C16-l (a merge defect outside C16's add-only statement: reported by C11); tools/mutation_selftest.sh and tools/scratch_selftest.sh re-run them. Specificity: 70 behaviour-preserving patches (benign/) x 20 checks raise one alarm, examined in DESIGN.md 8.5b (the patch, written for C15, really breaks C05).",
+    "notes": "All checks: exit 0 = held on everything explored, exit 1 + VIOLATION line = violation, exit 2 = infrastructure problem (never a verdict). Genuine defects found: seven repaired by fix: commits (fixed: lines of KNOWN_FINDINGS.txt), three recorded as known findings K1 (C17), K2 (C15), K3 (C20), each under its own failure signature with a fixed reproducer, so the check prints KNOWN-FINDING and still reports any other violation. Sensitivity: 48 hand-written mutants (mutants/*.patch) and 264 changes written by sub-agents that saw only a property text (seeded/*/patch.diff, ten rounds) all make the quick tier of their property exit 1, except seeded/C10-h (needs n >= 2.64e6: thorough tier) and three whose trigger lies outside the statement of the property they were written for and which the owning property's quick tier reports: seeded/C16-l (a merge defect outside C16's add-only statement: C11), seeded/C12-s (a merge defect outside C12's construction-only statement: C13), seeded/C15-s (needs a serde round trip mid-stream: C18); tools/mutation_selftest.sh and tools/scratch_selftest.sh re-run them. Specificity: 70 behaviour-preserving patches (benign/) x 20 checks raise one alarm, examined in DESIGN.md 8.5b (the patch, written for C15, really breaks C05).",
 }
 if not na:
     manifest["not_applicable"] = []
